@@ -55,6 +55,15 @@ theorem validateString_ok {s : List Nat} (h : NameOk s) : validateString s = s :
   · omega
   · rfl
 
+/-- the formatting part on a record with well-formed names (no hypothesis on the values) -/
+theorem atomText_names {w d : Nat} {r : Rec} (h1 : NameOk r.resname) (h2 : NameOk r.name) :
+    atomText (w, d) r = lineOf w d r := by
+  unfold atomText lineOf
+  simp only [validateString_ok h1, validateString_ok h2]
+  cases hrv : r.vel with
+  | none => simp [velText, List.append_assoc]
+  | some t => obtain ⟨a, b, c⟩ := t; simp [velText, List.append_assoc]
+
 theorem parseAtomlist_ok (w d : Nat) (vel : Bool) (r : Rec) (h : RecOk w d vel r) :
     parseAtomlist (w, d) (some vel) r = .ok (lineOf w d r) := by
   have hv : r.vel.isSome = vel := by
@@ -62,11 +71,8 @@ theorem parseAtomlist_ok (w d : Nat) (vel : Bool) (r : Rec) (h : RecOk w d vel r
     cases hrv : r.vel with
     | none => rw [hrv] at this; simp [VelOk] at this; simp [this]
     | some t => obtain ⟨a, b, c⟩ := t; rw [hrv] at this; simp [VelOk] at this; simp [this.1]
-  unfold parseAtomlist lineOf
-  simp only [hv, ne_eq, not_true_eq_false, if_false, validateString_ok h.resname, validateString_ok h.name]
-  cases hrv : r.vel with
-  | none => simp [velText, List.append_assoc]
-  | some t => obtain ⟨a, b, c⟩ := t; simp [velText, List.append_assoc]
+  unfold parseAtomlist
+  simp only [hv, ne_eq, not_true_eq_false, if_false, atomText_names h.resname h.name]
 
 /-! ### widths -/
 
